@@ -41,6 +41,7 @@ type Case struct {
 	Pre  string `json:"pre"`
 	Expr L      `json:"expr"`
 	Post string `json:"post"`
+	Zone string `json:"zone,omitempty"` // the environment's timezone (zones without daylight saving time; "" = UTC)
 }
 
 // ---------------------------------------------------------------------------------------------------------------
@@ -172,6 +173,17 @@ func ref(l L) (val, bool) {
 		}
 		switch l.S {
 		case "+", "-", "*", "/", "^":
+			// a date plus or minus a whole number of days is the date that many days later or earlier
+			if (l.S == "+" || l.S == "-") && a.kind == "date" && b.kind == "num" && !b.inexact && b.n.IsInteger() && b.n.Abs().LessThan(decimal.New(400, 0)) {
+				var y, m, d int
+				fmt.Sscanf(a.s, "%d-%d-%d", &y, &m, &d)
+				n := int(b.n.IntPart())
+				if l.S == "-" {
+					n = -n
+				}
+				t := time.Date(y, time.Month(m), d+n, 0, 0, 0, 0, time.UTC)
+				return val{kind: "date", s: t.Format("2006-01-02")}, true
+			}
 			if a.kind != "num" || b.kind != "num" {
 				return bad, false
 			}
@@ -370,14 +382,26 @@ func refCall(name string, a []val) (val, bool) {
 			return val{kind: "str", s: strings.ToLower(a[0].s)}, true
 		}
 	case "PROPER":
-		if len(a) == 1 && a[0].kind == "str" && isSimpleWords(a[0].s) {
-			ws := strings.Split(a[0].s, " ")
-			for i, w := range ws {
-				if w != "" {
-					ws[i] = strings.ToUpper(w[:1]) + strings.ToLower(w[1:])
+		// the legacy engine's PROPER is Python's str.title(): a letter is upper-cased when the character before it is not a
+		// letter and lower-cased otherwise. Words in which a letter follows a digit or an underscore are declined (there the
+		// legacy result, "3Rd", is not what anybody documents)
+		if len(a) == 1 && a[0].kind == "str" && isASCII(a[0].s) {
+			b := []byte(a[0].s)
+			isLetter := func(c byte) bool { return c >= 'a' && c <= 'z' || c >= 'A' && c <= 'Z' }
+			for i, c := range b {
+				if !isLetter(c) {
+					continue
+				}
+				if i > 0 && (b[i-1] >= '0' && b[i-1] <= '9' || b[i-1] == '_') {
+					return bad, false
+				}
+				if i > 0 && isLetter(b[i-1]) {
+					b[i] = strings.ToLower(string(c))[0]
+				} else {
+					b[i] = strings.ToUpper(string(c))[0]
 				}
 			}
-			return val{kind: "str", s: strings.Join(ws, " ")}, true
+			return val{kind: "str", s: string(b)}, true
 		}
 	case "REPT":
 		if len(a) == 2 && a[0].kind == "str" {
@@ -645,6 +669,11 @@ func interesting(l L, underOp, underCall bool) bool {
 
 func run(c Case) *harn.Failure {
 	env := envs.NewBuilder().Build()
+	if c.Zone != "" {
+		if loc, err := time.LoadLocation(c.Zone); err == nil {
+			env = envs.NewBuilder().WithTimezone(loc).Build()
+		}
+	}
 	legacyTpl := c.Pre + "@(" + c.Expr.legacy() + ")" + c.Post
 	want, known := ref(c.Expr)
 	var migrated string
@@ -777,7 +806,7 @@ func drawNumLit(t *rapid.T) L {
 }
 
 func drawStrLit(t *rapid.T) L {
-	return L{K: "str", S: rapid.SampledFrom([]string{"", "a", "abc", "hello world", "Hello World", "one two three", "x,y,z", "red,green,blue", "it's", "say \"hi\"", "\"", "a\\b", "a\\nb", "tab\\t", "100%", "a b", "end\\"}).Draw(t, "str")}
+	return L{K: "str", S: rapid.SampledFrom([]string{"", "a", "abc", "hello world", "Hello World", "one two three", "x,y,z", "red,green,blue", "it's", "say \"hi\"", "\"", "a\\b", "a\\nb", "tab\\t", "100%", "a b", "end\\", "o'grady", "dr.jones", "mary-jane o'neil", "U.S.A"}).Draw(t, "str")}
 }
 
 func drawNum(t *rapid.T, depth int) L {
@@ -819,6 +848,11 @@ func drawNum(t *rapid.T, depth int) L {
 		return L{K: "call", S: rapid.SampledFrom([]string{"LEN", "WORD_COUNT"}).Draw(t, "fn"), A: []L{drawStr(t, depth-1)}}
 	case 12:
 		date := L{K: "call", S: "DATE", A: []L{{K: "num", S: fmt.Sprint(rapid.IntRange(1990, 2030).Draw(t, "y"))}, {K: "num", S: fmt.Sprint(rapid.IntRange(1, 12).Draw(t, "m"))}, {K: "num", S: fmt.Sprint(rapid.IntRange(1, 28).Draw(t, "d"))}}}
+		if rapid.IntRange(0, 3).Draw(t, "dateshift") == 0 {
+			// date arithmetic under a date-part function: WEEKDAY(DATE(..) + k)
+			shifted := L{K: "bin", S: rapid.SampledFrom([]string{"+", "-"}).Draw(t, "shiftop"), A: []L{date, {K: "num", S: fmt.Sprint(rapid.IntRange(0, 40).Draw(t, "shift"))}}}
+			return L{K: "call", S: rapid.SampledFrom([]string{"WEEKDAY", "DAY", "MONTH", "YEAR"}).Draw(t, "fnshift"), A: []L{shifted}}
+		}
 		if rapid.IntRange(0, 2).Draw(t, "datediff") == 0 {
 			date2 := L{K: "call", S: "DATE", A: []L{{K: "num", S: fmt.Sprint(rapid.IntRange(1990, 2030).Draw(t, "y2"))}, {K: "num", S: fmt.Sprint(rapid.IntRange(1, 12).Draw(t, "m2"))}, {K: "num", S: fmt.Sprint(rapid.IntRange(1, 28).Draw(t, "d2"))}}}
 			if rapid.Bool().Draw(t, "days") {
@@ -924,7 +958,7 @@ func TestLegacyMigration(t *testing.T) {
 		default:
 			e = drawBool(rt, depth)
 		}
-		c := Case{Expr: e}
+		c := Case{Expr: e, Zone: rapid.SampledFrom([]string{"", "", "America/Bogota", "Asia/Kolkata", "Pacific/Honolulu"}).Draw(rt, "zone")}
 		if rapid.Bool().Draw(rt, "wrap") {
 			c.Pre = rapid.SampledFrom([]string{"Hi ", "Total: ", "x=", "(", "\"", "a\\"}).Draw(rt, "pre")
 			c.Post = rapid.SampledFrom([]string{" thanks", ".", ")", "\"", " @ home", ""}).Draw(rt, "post")
